@@ -1,424 +1,249 @@
-(* TrDir.v -- /repo/dir.c (the bidi reordering of C18: dir_context, dir_match, dir_fix, dir_reorder) and conf.c's table readers
-   conf_dirmark / conf_dircontext, tied to the model DirDefs.v BY PROOF on the translated C text (coq/GenCFuncs.v, whitelist
-   tools/c2clite.d/99zzz_dir.list; dir_reverse is proved in TrRen.v).
-
-   rset_find (the pattern matcher over the configured marks) is NOT translated: the calls to it are answered by an oracle `ext`
-   (CLiteExt.callx), exactly as the model has the matcher as a parameter (`raw b e ctx flg` = the answer of rset_find for the
-   substring chrs[beg]..chrs[end]).  Every theorem is stated for EVERY oracle whose answers are described by `raw` (oracle_ok: the
-   index of the mark is returned, the 2 * 16 offsets are stored into the array handed over, no other block that existed changes).
-
-   The local objects whose address is taken (`int subs[32]`, `int grp`, and r_beg r_end c_beg c_end c_dir c_rec of dir_fix) are
-   blocks of their own in CLite (a malloc at the declaration; they are never freed, like a stack frame that is never popped), so
-   the memory after a call is the old memory with blocks appended: the theorems describe it by mem_ext (every block that existed,
-   other than the listed ones, is unchanged). *)
+(* TrDir.v -- dir_match, dir_fix, dir_reorder of /repo/dir.c against DirDefs.v, relative to a matcher oracle (see TrDirBase.v for
+   the setting, the oracle hypothesis oracle_ok / raw_ok, dir_context and the first phases of dir_match). *)
 From Coq Require Import List ZArith NArith Bool Lia.
-From NV Require Import Bytes UcDefs GenConf GenConsts DirDefs DirProps IoDefs CLite CLiteProps GenCFuncs CLiteTac CLiteExt TrUc TrRen TrSbuf.
+From NV Require Import Bytes UcDefs GenConf GenConsts DirDefs DirProps IoDefs IoProps CLite CLiteProps GenCFuncs CLiteTac CLiteExt TrUc TrRen TrSbuf TrDirBase.
 Import ListNotations.
 Local Open Scope Z_scope.
 
-(* ------------------------------------------------------------------ a C string at the start of a larger block
-   (sbuf_buf returns the start of an allocation of s_sz cells: the string, its terminator, then unused cells).  TrUc.v states
-   uc_end / uc_next / uc_off for a block that holds exactly the string (str_at); the proofs use that only through load_str, so
-   they are repeated here for pstr_at (the proofs are those of TrUc.v with load_pstr for load_str). *)
-Definition pstr_at (m : mem) (b : nat) (s : bytes) : Prop := exists rest, nth_error m b = Some (cstr_block (zb s) ++ rest).
-Lemma str_pstr m b s : str_at m b s -> pstr_at m b s.
-Proof. intro H. exists []. rewrite app_nil_r. exact H. Qed.
-Lemma load_pstr m b s z (o : nat) : pstr_at m b s -> z = Z.of_nat o -> (o <= length s)%nat ->
-  load m b z = Ok (VInt (Z.of_N (nthb s o))).
-Proof.
-  intros [rest H] -> Ho.
-  assert (L : length (cstr_block (zb s)) = S (length s)) by (unfold cstr_block, zb; rewrite app_length, !map_length; cbn; lia).
-  pose proof (load_str [cstr_block (zb s)] 0 s (Z.of_nat o) o eq_refl eq_refl Ho) as E.
-  unfold load in *. rewrite H. cbn [nth_error] in E.
-  destruct (Z.of_nat o <? 0); [exact E|]. rewrite nth_error_app1 by lia. exact E.
-Qed.
-Ltac xloadp Hs H256 p :=
-  rewrite (load_pstr _ _ _ _ p Hs) by lia; xstep;
-  rewrite ?wrap_byte_chain by (apply nthb_lt256; exact H256); rewrite ?nb2z.
+(* the result of dir_match in the six result cells *)
+Definition res_cells (mc : mem) (prec prb pre pcb pce pdir : nat) (r : mres) : Prop :=
+  nth_error mc prb = Some [VInt (Z.of_nat (r_beg r))] /\ nth_error mc pre = Some [VInt (Z.of_nat (r_end r))] /\
+  nth_error mc pcb = Some [VInt (Z.of_nat (c_beg r))] /\ nth_error mc pce = Some [VInt (Z.of_nat (c_end r))] /\
+  nth_error mc pdir = Some [VInt (c_dir r)] /\ nth_error mc prec = Some [VInt (b2z (c_rec r))].
 
-Lemma uc_end_loop_okp call m b s : pstr_at m b s -> bytes_lt256 s ->
-  forall n p fuel, (p <= length s)%nat -> skip_cont (skipn p s) = n -> (n < fuel)%nat ->
-  exec call fuel uc_end_loop (mkst [VPtr b (Z.of_nat p)] m) = ONormal (mkst [VPtr b (Z.of_nat (p + n))] m).
-Proof.
-  intros Hs H256. induction n as [|n IH]; intros p fuel Hp Hn Hf; (destruct fuel as [|fuel]; [lia|]);
-    unfold uc_end_loop; cbn [fn_body cf_uc_end]; rewrite exec_while; xstep;
-    rewrite (load_pstr m b s _ p Hs) by lia; xstep;
-    rewrite wrap_byte_chain by (apply nthb_lt256; exact H256);
-    rewrite ?nb2z, (cc_cont _ (nthb_lt256 s p H256)).
-  - destruct (Nat.eq_dec p (length s)) as [->|Hne].
-    + rewrite nthb_end by lia. cbn. rewrite Nat.add_0_r. reflexivity.
-    + rewrite skipn_cons_nthb in Hn by lia. cbn [skip_cont] in Hn.
-      destruct (is_cont (nthb s p)); [discriminate|]. rewrite Nat.add_0_r. reflexivity.
-  - destruct (Nat.eq_dec p (length s)) as [->|Hne].
-    + rewrite skipn_end in Hn by lia. discriminate.
-    + rewrite skipn_cons_nthb in Hn by lia. cbn [skip_cont] in Hn.
-      destruct (is_cont (nthb s p)); [|discriminate]. injection Hn as Hn.
-      replace (Z.of_nat p + 1) with (Z.of_nat (S p)) by lia.
-      change (SWhile _ _) with uc_end_loop. rewrite (IH (S p) fuel ltac:(lia) Hn ltac:(lia)).
-      do 4 f_equal. lia.
-Qed.
+(* the fifteen disequalities of six distinct result cells, kept out of lia's sight (it would split on each of them) *)
+Inductive hide (P : Prop) : Prop := Hide : P -> hide P.
+Lemma nodup6h (a b c d e f : nat) : NoDup [a; b; c; d; e; f] ->
+  hide (a <> b /\ a <> c /\ a <> d /\ a <> e /\ a <> f /\ b <> c /\ b <> d /\ b <> e /\ b <> f /\ c <> d /\ c <> e /\ c <> f /\
+        d <> e /\ d <> f /\ e <> f).
+Proof. intro H. constructor. exact (nodup6 a b c d e f H). Qed.
+Ltac oside HN := first [ lia | solve [let H := fresh in destruct HN as [H]; decompose [and] H; auto] ].
 
-Theorem tr_uc_endp m b s o d fuel :
-  pstr_at m b s -> bytes_lt256 s -> (o <= length s)%nat -> (length s < fuel)%nat ->
-  callf cprog fuel (S d) F_uc_end [VPtr b (Z.of_nat o)] m
-  = Ok (VPtr b (Z.of_nat (o + uc_end (skipn o s))), m).
+Lemma dm_conv_ok ext fuel d (m mc : mem) sb s cb chrs rslr rsrl raw b e ctx prec prb pre pcb pce pdir sz bd found subs :
+  dir_world m sb s cb chrs rslr rsrl -> (b <= e < length chrs)%nat ->
+  outs_ok m sb cb (dm_outs prec prb pre pcb pce pdir) ->
+  raw b e ctx (dm_flags s chrs b e) = Some (found, subs) ->
+  (found < length dirmarks)%nat -> Forall int_ok (subs_cells subs) -> 0 <= nth 0 subs (-1)%Z -> 0 <= nth 1 subs (-1)%Z ->
+  (length s < fuel)%nat ->
+  let L := length m in
+  let call := callx ext cprog fuel (S (S (S d))) in
+  let outs := dm_outs prec prb pre pcb pce pdir in
+  let str := substr s chrs b e in
+  let flg := dm_flags s chrs b e in
+  let rs := rs_of rslr rsrl ctx in
+  mstate m mc outs [] (map VInt (subs_cells subs)) VUndef (zb str) sz bd ->
+  exists mc' sz' bd' sv gv chg res,
+    exec call fuel (seq_drop 8 dm_body) (mkst (dm_args cb b e ctx prec prb pre pcb pce pdir ++ dm_locals L rs flg (Z.of_nat found) VUndef) mc)
+    = exec call fuel (seq_drop 9 dm_body) (mkst (dm_args cb b e ctx prec prb pre pcb pce pdir ++ dm_locals L rs flg (Z.of_nat found) sv) mc') /\
+    mstate m mc' outs chg (map VInt (subs_cells subs)) gv (zb str) sz' bd' /\
+    (forall q, In q chg -> In q outs \/ q = S (S L)) /\
+    dir_match s chrs raw b e ctx = Some res /\ res_cells mc' prec prb pre pcb pce pdir res.
 Proof.
-  intros Hs H256 Ho Hf. enter F_uc_end cf_uc_end. xstep.
-  pose proof (nthb_lt256 s o H256) as Hc.
-  xloadp Hs H256 o. rewrite negb_involutive, (cc_z0 _ Hc).
-  assert (Hsk: skipn o s = if (o <? length s)%nat then nthb s o :: skipn (S o) s else []).
-  { destruct (Nat.ltb_spec o (length s)); [apply skipn_cons_nthb; lia | apply skipn_end; lia]. }
-  destruct (N.eqb_spec (nthb s o) 0) as [E0|E0].
-  { xstep. unfold uc_end. rewrite Hsk. destruct (o <? length s)%nat; [rewrite E0; cbn|]; rewrite Nat.add_0_r; reflexivity. }
-  assert (o < length s)%nat as Hlt
-    by (destruct (Nat.lt_ge_cases o (length s)); [assumption| rewrite nthb_end in E0 by lia; congruence]).
-  destruct (Nat.ltb_spec o (length s)); [|lia].
-  xstep. xloadp Hs H256 o. rewrite (cc_high _ Hc).
-  unfold uc_end. rewrite Hsk.
-  destruct (bit (nthb s o) 128) eqn:E1; cbn [negb]; xstep; [|rewrite Nat.add_0_r; reflexivity].
-  xloadp Hs H256 o. rewrite (cc_lead _ Hc).
-  pose proof (cc_cont_of _ Hc) as Hco. rewrite E1 in Hco. cbn [andb] in Hco.
-  destruct (is_lead (nthb s o)) eqn:E2; xstep.
-  - replace (Z.of_nat o + 1) with (Z.of_nat (S o)) by lia.
-    change (SWhile _ _) with uc_end_loop.
-    rewrite (uc_end_loop_okp _ m b s Hs H256 _ (S o) fuel ltac:(lia) eq_refl)
-      by (pose proof (skip_cont_le (skipn (S o) s)); rewrite skipn_length in *; lia).
-    xstep. do 3 f_equal. lia.
-  - change (SWhile _ _) with uc_end_loop.
-    rewrite (uc_end_loop_okp _ m b s Hs H256 _ o fuel ltac:(lia) eq_refl)
-      by (pose proof (skip_cont_le (skipn o s)); rewrite skipn_length in *; lia).
-    xstep. rewrite Hsk. cbn [skip_cont]. rewrite <- Hco. cbn [negb]. do 3 f_equal. lia.
-Qed.
-
-Theorem tr_uc_nextp m b s o d fuel :
-  pstr_at m b s -> bytes_lt256 s -> (o <= length s)%nat -> (length s < fuel)%nat ->
-  callf cprog fuel (S (S d)) F_uc_next [VPtr b (Z.of_nat o)] m
-  = Ok (VPtr b (Z.of_nat (o + uc_next (skipn o s))), m).
-Proof.
-  intros Hs H256 Ho Hf. enter F_uc_next cf_uc_next. xstep.
-  rewrite (tr_uc_endp m b s o d fuel Hs H256 Ho Hf). xstep.
-  pose proof (uc_end_in (skipn o s)) as He. rewrite skipn_length in He.
-  xloadp Hs H256 (o + uc_end (skipn o s))%nat.
-  pose proof (nthb_lt256 s (o + uc_end (skipn o s)) H256) as Hc.
-  rewrite (cc_z0i _ Hc). unfold uc_next. rewrite nthb_skipn.
-  destruct (nthb s (o + uc_end (skipn o s)) =? 0)%N; xstep; do 3 f_equal; lia.
-Qed.
-
-Lemma uc_off_loop_okp F d m b s o off : pstr_at m b s -> nonul s -> (length s < F)%nat -> (o <= length s)%nat ->
-  forall k p i fuel, (length s - p <= k)%nat -> (o <= p <= length s)%nat -> (k < fuel)%nat ->
-  0 <= i -> i + Z.of_nat (length s - p) <= 2147483647 ->
-  exists p',
-  exec (callf cprog F (S (S d))) fuel uc_off_loop
-       (mkst [VPtr b (Z.of_nat p); VInt (Z.of_nat off); VPtr b (Z.of_nat (o + off)); VInt i] m)
-  = ONormal (mkst [VPtr b p'; VInt (Z.of_nat off); VPtr b (Z.of_nat (o + off));
-                   VInt (i + Z.of_nat (uc_off_f k (skipn p s) (p - o) off))] m).
-Proof.
-  intros Hs Hnn HF Ho. pose proof (nonul_lt256 s Hnn) as H256.
-  induction k as [|k IH]; intros p i fuel Hk Hp Hf Hi Hmax; (destruct fuel as [|fuel]; [lia|]);
-    unfold uc_off_loop; cbn [fn_body cf_uc_off]; rewrite exec_for; xstep; cbn [ptr_cmp]; rewrite Nat.eqb_refl; xstep.
-  - assert (p = length s) as -> by lia. cbn [uc_off_f]. rewrite Z.add_0_r.
-    destruct (Z.ltb_spec (Z.of_nat (length s)) (Z.of_nat (o + off))); xstep.
-    + xloadp Hs H256 (length s). rewrite nthb_end by lia. cbn. eexists; reflexivity.
-    + eexists; reflexivity.
-  - destruct (Nat.eq_dec p (length s)) as [->|Hne].
-    + rewrite skipn_end by lia. cbn [uc_off_f]. rewrite Z.add_0_r.
-      destruct (Z.ltb_spec (Z.of_nat (length s)) (Z.of_nat (o + off))); xstep.
-      * xloadp Hs H256 (length s). rewrite nthb_end by lia. cbn. eexists; reflexivity.
-      * eexists; reflexivity.
-    + rewrite uc_off_f_step by (apply skipn_ne; lia).
-      destruct (Z.ltb_spec (Z.of_nat p) (Z.of_nat (o + off))) as [Hlt|Hge]; xstep.
-      * destruct (Nat.ltb_spec (p - o) off) as [_|Hx]; [|lia].
-        xloadp Hs H256 p. rewrite (cc_z0i _ (nthb_lt256 s p H256)), nonul_nthb_nz by (auto; lia). xstep.
-        rewrite (tr_uc_nextp m b s p d F Hs H256) by lia. xstep.
-        pose proof (uc_next_nonul (skipn p s) (nonul_skipn s p Hnn) (skipn_ne s p ltac:(lia))) as Hnx.
-        pose proof (uc_end_lt (skipn p s) (skipn_ne s p ltac:(lia))) as Hel. rewrite skipn_length in Hel.
-        unfold chk; cbn [ity_signed].
-        replace (in_range I32 (i + 1)) with true
-          by (symmetry; unfold in_range, ity_min, ity_max; cbn [ity_signed ity_bits]; change (- 2 ^ (32 - 1)) with (-2147483648); change (2 ^ (32 - 1) - 1) with 2147483647; apply andb_true_intro; split; apply Z.leb_le; lia).
-        xstep. change (SFor _ _ _) with uc_off_loop.
-        destruct (IH (p + uc_next (skipn p s))%nat (i + 1) fuel) as [p' Hp']; try lia.
-        rewrite Hp'. exists p'. rewrite skipn_skipn.
-        replace (p + uc_next (skipn p s) - o)%nat with (p - o + uc_next (skipn p s))%nat by lia.
-        match goal with
-        | |- ONormal (mkst [_; _; _; VInt ?x] _) = ONormal (mkst [_; _; _; VInt ?y] _) =>
-            replace y with x; [reflexivity|]
-        end.
-        rewrite Nat2Z.inj_succ. lia.
-      * destruct (Nat.ltb_spec (p - o) off) as [Hx|_]; [lia|]. rewrite Z.add_0_r. eexists; reflexivity.
-Qed.
-
-(* uc_off(s, off) on a string at the start of a block: the number of characters before byte offset off *)
-Theorem tr_uc_offp m b s off d fuel :
-  pstr_at m b s -> nonul s -> (length s < fuel)%nat ->
-  Z.of_nat (length s) <= 2147483647 -> Z.of_nat off <= 2147483647 ->
-  callf cprog fuel (S (S (S d))) F_uc_off [VPtr b 0; VInt (Z.of_nat off)] m
-  = Ok (VInt (Z.of_nat (uc_off s off)), m).
-Proof.
-  intros Hs Hnn Hf Hmax Hoff. enter F_uc_off cf_uc_off. xstep.
-  replace (0 + 1 * Z.of_nat off) with (Z.of_nat (0 + off)) by lia.
-  change (SFor _ _ _) with uc_off_loop.
-  destruct (uc_off_loop_okp fuel d m b s 0 off Hs Hnn Hf ltac:(lia) (length s) 0 0 fuel) as [p' Hp']; try lia.
-  change 0 with (Z.of_nat 0) at 1. rewrite Hp'. xstep. reflexivity.
-Qed.
-
-Lemma uc_off_f_le k : forall t pos e, (uc_off_f k t pos e <= k)%nat.
-Proof.
-  induction k as [|k IH]; intros t pos e; [cbn; lia|]. destruct t as [|x t]; [cbn; lia|].
-  rewrite uc_off_f_step by discriminate. destruct (pos <? e)%nat; [|lia]. specialize (IH (skipn (uc_next (x :: t)) (x :: t)) (pos + uc_next (x :: t))%nat e). lia.
-Qed.
-Lemma uc_off_le s off : (uc_off s off <= length s)%nat.
-Proof. apply uc_off_f_le. Qed.
-
-(* ------------------------------------------------------------------ memory that only grew *)
-(* every block that existed, other than the ones listed, is unchanged; new blocks may have been appended *)
-Definition mem_ext (m m' : mem) (bs : list nat) : Prop :=
-  (length m <= length m')%nat /\ forall b, (b < length m)%nat -> ~ In b bs -> nth_error m' b = nth_error m b.
-Lemma mem_ext_refl m bs : mem_ext m m bs.
-Proof. split; [lia|reflexivity]. Qed.
-Lemma mem_ext_trans m1 m2 m3 bs1 bs2 bs : mem_ext m1 m2 bs1 -> mem_ext m2 m3 bs2 -> incl bs1 bs ->
-  (forall b, In b bs2 -> (b < length m1)%nat -> In b bs) -> mem_ext m1 m3 bs.
-Proof.
-  intros [L1 F1] [L2 F2] I1 I2. split; [lia|]. intros b Hb Hn.
-  rewrite F2 by (first [lia | intro X; apply Hn, I2; [exact X|exact Hb]]). apply F1; [exact Hb|]. intro X; apply Hn, I1, X.
-Qed.
-Lemma mem_ext_weaken m m' bs bs' : mem_ext m m' bs -> incl bs bs' -> mem_ext m m' bs'.
-Proof. intros [L F] I. split; [exact L|]. intros b Hb Hn. apply F; [exact Hb|]. intro X; apply Hn, I, X. Qed.
-Lemma mem_ext_app m blk bs : mem_ext m (m ++ [blk]) bs.
-Proof. split; [rewrite app_length; lia|]. intros b Hb _. apply nth_error_app_old. exact Hb. Qed.
-Lemma mem_ext_upd (m : mem) b blk bs : In b bs -> mem_ext m (upd m b blk) bs.
-Proof.
-  intro Hin. destruct (Nat.lt_ge_cases b (length m)) as [L|L].
-  - split; [rewrite upd_length by exact L; lia|]. intros b' Hb Hn. apply mem_upd_other; [exact L|]. intros ->. exact (Hn Hin).
-  - replace (upd m b blk) with (m ++ [blk]); [apply mem_ext_app|].
-    unfold upd. rewrite firstn_all2, skipn_all2 by lia. reflexivity.
-Qed.
-Lemma mem_ext_get m m' bs b blk : mem_ext m m' bs -> nth_error m b = Some blk -> ~ In b bs -> nth_error m' b = Some blk.
-Proof. intros [L F] H Hn. rewrite F; [exact H| |exact Hn]. apply nth_error_Some. congruence. Qed.
-Lemma mem_ext_step m m' p : sbuf_step m m' p ->
-  mem_ext m m' (p :: match sbuf_datab m p with Some b => [b] | None => [] end).
-Proof.
-  intros [L [_ F]]. split; [exact L|]. intros b Hb Hn. apply F; [exact Hb| |].
-  - intros ->. apply Hn. left. reflexivity.
-  - intro E. apply Hn. right. rewrite E. left. reflexivity.
+  intros W Hbe [Hnd Ho] Hr Hfound Hint H0 H1 Hf L call outs str flg rs MS. subst call.
+  pose proof W as [Hs Hnn Hc Hcok Hlr Plr Hrl Prl Htab Hsize].
+  pose proof (nodup6h _ _ _ _ _ _ Hnd) as HN.
+  destruct (substr_length s chrs b e Hcok Hbe) as [Hsl [Hcb Hce]]. fold str in Hsl.
+  pose proof (substr_nonul s chrs b e Hnn) as Hsn. fold str in Hsn.
+  destruct (gb_dirmarks_rows found Hfound) as (_ & _ & _ & _ & Idir & Igrp & Hgr).
+  set (grp := dm_grp found) in *. set (dir := dm_dir found) in *.
+  assert (Is0 : int_ok (nth 0 subs (-1)%Z)) by (apply subs_cells_int; [exact Hint|lia]).
+  assert (Is1 : int_ok (nth 1 subs (-1)%Z)) by (apply subs_cells_int; [exact Hint|lia]).
+  assert (In_rec : In prec outs) by (left; reflexivity).
+  assert (In_rb : In prb outs) by (right; left; reflexivity).
+  assert (In_re : In pre outs) by (right; right; left; reflexivity).
+  assert (In_cb : In pcb outs) by (right; right; right; left; reflexivity).
+  assert (In_ce : In pce outs) by (right; right; right; right; left; reflexivity).
+  assert (In_dir : In pdir outs) by (right; right; right; right; right; left; reflexivity).
+  pose proof (dir_match_some s chrs raw b e ctx found subs Hr Hfound) as DM. cbv beta zeta in DM. fold str grp dir in DM.
+  unfold dm_args, dm_locals. cbn [seq_drop dm_body fn_body cf_dir_match app].
+  change (SSeq (SExpr (ECall F_sbuf_free _)) _) with (seq_drop 9 dm_body).
+  change (ECond (EBin OGe I32 (ELoad (Some I32) (EPtrAdd 1 (ELocal 10) (EBin OAdd I32 _ (EConst 0)))) _) _ _) with dm_cbeg_expr.
+  change (ECond (EBin OGe I32 (ELoad (Some I32) (EPtrAdd 1 (ELocal 10) (EBin OAdd I32 _ (EConst 1)))) _) _ _) with dm_cend_expr.
+  xs. destruct (Z.leb_spec 0 (Z.of_nat found)); [|lia]. xs.
+  (* s = sbuf_buf(str) *)
+  destruct (tr_sbuf_buf mc (S L) (zb str) sz (S d) fuel (ms_rep _ _ _ _ _ _ _ _ _ MS)) as [b7 [m7 [rest [E7 [R7 [D7 [Hd7 [_ [_ [S7 _]]]]]]]]]].
+  rewrite (callx_mono ext _ _ _ _ _ _ _ E7). xs.
+  pose proof (ms_step _ _ _ _ _ _ _ _ _ _ _ _ _ MS S7 R7 D7) as MS7.
+  pose proof (pstr_of_buf m7 b7 str rest Hd7) as P7.
+  pose proof (ms_bd _ _ _ _ _ _ _ _ _ MS7) as Hb7. fold L in Hb7.
+  pose proof (ms_len _ _ _ _ _ _ _ _ _ MS7) as Hlen7. fold L in Hlen7.
+  assert (HoL : forall p, In p outs -> (p < L)%nat) by (intros p Hp; apply (ms_outs _ _ _ _ _ _ _ _ _ MS7 p Hp)).
+  pose proof (HoL _ In_rec) as Lrec. pose proof (HoL _ In_rb) as Lrb. pose proof (HoL _ In_re) as Lre.
+  pose proof (HoL _ In_cb) as Lcb. pose proof (HoL _ In_ce) as Lce. pose proof (HoL _ In_dir) as Ldir.
+  (* conf_dirmark(found, NULL, NULL, dir, &grp) *)
+  assert (W7 : dir_world m7 sb s cb chrs rslr rsrl) by (apply (world_ext m m7 [] _ _ _ _ _ _ W (ms_ext _ _ _ _ _ _ _ _ _ MS7)); intros ? []).
+  destruct (ms_outs _ _ _ _ _ _ _ _ _ MS7 pdir In_dir) as [_ [xd Hxd]].
+  assert (Hne8 : pdir <> S (S L)) by lia.
+  pose proof (tr_conf_dirmark m7 found pdir (S (S L)) xd VUndef (S (S d)) fuel (dw_tab _ _ _ _ _ _ _ W7) Hxd (ms_grp _ _ _ _ _ _ _ _ _ MS7) Hne8 Hfound) as E8.
+  rewrite (callx_mono ext _ _ _ _ _ _ _ E8). xs. fold grp dir.
+  pose proof (ms_upd_grp _ _ _ _ _ _ _ _ _ (VInt grp) (ms_upd_out _ _ _ _ _ _ _ _ _ pdir (VInt dir) MS7 In_dir)) as MS8. fold L in MS8.
+  set (m8 := upd (upd m7 pdir [VInt dir]) (S (S L)) [VInt grp]) in *.
+  assert (P8 : pstr_at m8 b7 str).
+  { unfold m8. apply pstr_upd_other; [apply pstr_upd_other; [exact P7|lia|lia]|lia|rewrite upd_length by lia; lia]. }
+  assert (Hl8 : length m8 = length m7) by (unfold m8; rewrite !upd_length; rewrite ?upd_length; lia).
+  (* *r_beg = beg + uc_off(s, subs[0]) *)
+  pose proof (uc_off_le str (Z.to_nat (nth 0 subs (-1)%Z))) as Ule0. pose proof (uc_off_le str (Z.to_nat (nth 1 subs (-1)%Z))) as Ule1.
+  assert (LdS : forall (mm : mem) k z, nth_error mm L = Some (map VInt (subs_cells subs)) -> z = Z.of_nat k -> (k < 32)%nat ->
+            load mm L (0 + 1 * z) = Ok (VInt (nth k subs (-1)%Z))).
+  { intros mm k z HL -> Hk. apply (ld_glob mm L _ _ _ HL); [apply Z.ltb_ge; lia|].
+    replace (Z.to_nat (0 + 1 * Z.of_nat k)) with k by lia. apply subs_cells_nth. exact Hk. }
+  rewrite (LdS m8 0%nat 0 (ms_subs _ _ _ _ _ _ _ _ _ MS8)) by (try reflexivity; lia). xs. rewrite (wrap_int_ok _ Is0).
+  rewrite (dm_off_call ext fuel d m8 b7 str _ P8 Hsn) by (unfold int_ok in *; lia). xs.
+  rewrite chk_I32 by lia. xs. rewrite wrap_I32_id by lia.
+  destruct (ms_outs _ _ _ _ _ _ _ _ _ MS8 prb In_rb) as [_ [xrb Hxrb]].
+  rewrite (st_cell m8 prb xrb _ Hxrb). xs.
+  set (rb := (b + uc_off str (Z.to_nat (nth 0 subs (-1)%Z)))%nat) in *. rewrite <- Nat2Z.inj_add. fold rb.
+  pose proof (ms_upd_out _ _ _ _ _ _ _ _ _ prb (VInt (Z.of_nat rb)) MS8 In_rb) as MS9.
+  set (m9 := upd m8 prb [VInt (Z.of_nat rb)]) in *.
+  assert (P9 : pstr_at m9 b7 str) by (unfold m9; apply pstr_upd_other; [exact P8|lia|lia]).
+  assert (Hl9 : length m9 = length m7) by (unfold m9; rewrite upd_length by lia; exact Hl8).
+  (* *r_end = beg + uc_off(s, subs[1]) *)
+  rewrite (LdS m9 1%nat 1 (ms_subs _ _ _ _ _ _ _ _ _ MS9)) by (try reflexivity; lia). xs. rewrite (wrap_int_ok _ Is1).
+  rewrite (dm_off_call ext fuel d m9 b7 str _ P9 Hsn) by (unfold int_ok in *; lia). xs.
+  rewrite chk_I32 by lia. xs. rewrite wrap_I32_id by lia.
+  destruct (ms_outs _ _ _ _ _ _ _ _ _ MS9 pre In_re) as [_ [xre Hxre]].
+  rewrite (st_cell m9 pre xre _ Hxre). xs.
+  set (re := (b + uc_off str (Z.to_nat (nth 1 subs (-1)%Z)))%nat) in *. rewrite <- Nat2Z.inj_add. fold re.
+  pose proof (ms_upd_out _ _ _ _ _ _ _ _ _ pre (VInt (Z.of_nat re)) MS9 In_re) as MS10.
+  set (m10 := upd m9 pre [VInt (Z.of_nat re)]) in *.
+  assert (P10 : pstr_at m10 b7 str) by (unfold m10; apply pstr_upd_other; [exact P9|lia|lia]).
+  assert (Hl10 : length m10 = length m7) by (unfold m10; rewrite upd_length by lia; exact Hl9).
+  assert (Hrb10 : nth_error m10 prb = Some [VInt (Z.of_nat rb)]).
+  { unfold m10. rewrite mem_upd_other by oside HN. unfold m9. apply mem_upd_same. lia. }
+  assert (Hre10 : nth_error m10 pre = Some [VInt (Z.of_nat re)]) by (unfold m10; apply mem_upd_same; lia).
+  (* *c_beg *)
+  assert (Irb : int_ok (Z.of_nat rb)) by (unfold int_ok, rb; lia).
+  assert (Ire : int_ok (Z.of_nat re)) by (unfold int_ok, re; lia).
+  pose proof (dm_cbeg_eval ext fuel d m10 cb b e ctx prec prb pre pcb pce pdir L rs flg (Z.of_nat found) b7 subs grp str (Z.of_nat rb)
+                (ms_subs _ _ _ _ _ _ _ _ _ MS10) (ms_grp _ _ _ _ _ _ _ _ _ MS10) Hgr Hint P10 Hsn ltac:(lia) ltac:(lia) Hrb10 Irb) as Ecb.
+  unfold dm_args, dm_locals in Ecb. cbn [app] in Ecb. rewrite Ecb. xs. clear Ecb.
+  set (g := Z.to_nat grp) in *. 
+  set (vcb := if 0 <=? nth (2 * g) subs (-1)%Z then (b + uc_off str (Z.to_nat (nth (2 * g) subs (-1)%Z)))%nat else rb) in *.
+  replace (if 0 <=? nth (2 * g) subs (-1)%Z then Z.of_nat (b + uc_off str (Z.to_nat (nth (2 * g) subs (-1)%Z))) else Z.of_nat rb) with (Z.of_nat vcb)
+    by (unfold vcb; destruct (0 <=? nth (2 * g) subs (-1)%Z); reflexivity).
+  assert (Bcb : (vcb <= b + length str)%nat).
+  { unfold vcb. pose proof (uc_off_le str (Z.to_nat (nth (2 * g) subs (-1)%Z))). destruct (0 <=? nth (2 * g) subs (-1)%Z); unfold rb; lia. }
+  rewrite wrap_I32_id by lia.
+  destruct (ms_outs _ _ _ _ _ _ _ _ _ MS10 pcb In_cb) as [_ [xcb Hxcb]].
+  rewrite (st_cell m10 pcb xcb _ Hxcb). xs.
+  pose proof (ms_upd_out _ _ _ _ _ _ _ _ _ pcb (VInt (Z.of_nat vcb)) MS10 In_cb) as MS11.
+  set (m11 := upd m10 pcb [VInt (Z.of_nat vcb)]) in *.
+  assert (P11 : pstr_at m11 b7 str) by (unfold m11; apply pstr_upd_other; [exact P10|lia|lia]).
+  assert (Hl11 : length m11 = length m7) by (unfold m11; rewrite upd_length by lia; exact Hl10).
+  assert (Hrb11 : nth_error m11 prb = Some [VInt (Z.of_nat rb)]) by (unfold m11; rewrite mem_upd_other by oside HN; exact Hrb10).
+  assert (Hre11 : nth_error m11 pre = Some [VInt (Z.of_nat re)]) by (unfold m11; rewrite mem_upd_other by oside HN; exact Hre10).
+  (* *c_end *)
+  pose proof (dm_cend_eval ext fuel d m11 cb b e ctx prec prb pre pcb pce pdir L rs flg (Z.of_nat found) b7 subs grp str (Z.of_nat re)
+                (ms_subs _ _ _ _ _ _ _ _ _ MS11) (ms_grp _ _ _ _ _ _ _ _ _ MS11) Hgr Hint P11 Hsn ltac:(lia) ltac:(lia) Hre11 Ire) as Ece.
+  unfold dm_args, dm_locals in Ece. cbn [app] in Ece. rewrite Ece. xs. clear Ece. fold g.
+  set (vce := if 0 <=? nth (2 * g + 1) subs (-1)%Z then (b + uc_off str (Z.to_nat (nth (2 * g + 1) subs (-1)%Z)))%nat else re) in *.
+  replace (if 0 <=? nth (2 * g + 1) subs (-1)%Z then Z.of_nat (b + uc_off str (Z.to_nat (nth (2 * g + 1) subs (-1)%Z))) else Z.of_nat re) with (Z.of_nat vce)
+    by (unfold vce; destruct (0 <=? nth (2 * g + 1) subs (-1)%Z); reflexivity).
+  assert (Bce : (vce <= b + length str)%nat).
+  { unfold vce. pose proof (uc_off_le str (Z.to_nat (nth (2 * g + 1) subs (-1)%Z))). destruct (0 <=? nth (2 * g + 1) subs (-1)%Z); unfold re; lia. }
+  rewrite wrap_I32_id by lia.
+  destruct (ms_outs _ _ _ _ _ _ _ _ _ MS11 pce In_ce) as [_ [xce Hxce]].
+  rewrite (st_cell m11 pce xce _ Hxce). xs.
+  pose proof (ms_upd_out _ _ _ _ _ _ _ _ _ pce (VInt (Z.of_nat vce)) MS11 In_ce) as MS12.
+  set (m12 := upd m11 pce [VInt (Z.of_nat vce)]) in *.
+  assert (Hl12 : length m12 = length m7) by (unfold m12; rewrite upd_length by lia; exact Hl11).
+  (* *rec = grp > 0 *)
+  pose proof (ms_grp _ _ _ _ _ _ _ _ _ MS12) as Hg12. fold L in Hg12.
+  rewrite (ld_cell _ _ _ Hg12). xs. rewrite (wrap_int_ok _ Igrp).
+  destruct (ms_outs _ _ _ _ _ _ _ _ _ MS12 prec In_rec) as [_ [xrec Hxrec]].
+  rewrite (st_cell m12 prec xrec _ Hxrec). xs.
+  replace (wrap I32 (b2z (0 <? grp))) with (b2z (0 <? grp)) by (destruct (0 <? grp); reflexivity).
+  pose proof (ms_upd_out _ _ _ _ _ _ _ _ _ prec (VInt (b2z (0 <? grp))) MS12 In_rec) as MS13.
+  set (m13 := upd m12 prec [VInt (b2z (0 <? grp))]) in *.
+  eexists m13, _, _, _, _, _, _. split; [reflexivity|]. split; [exact MS13|]. split.
+  { intros q Hq. cbn [In] in Hq. fold L. intuition (subst; auto). }
+  split; [exact DM|]. unfold res_cells. cbn [r_beg r_end c_beg c_end c_dir c_rec]. fold vcb vce.
+  assert (Hdir8 : nth_error m8 pdir = Some [VInt dir]).
+  { unfold m8. rewrite mem_upd_other by (rewrite ?upd_length by lia; lia). apply mem_upd_same. lia. }
+  unfold m13, m12, m11.
+  repeat split.
+  - rewrite !mem_upd_other by (rewrite ?upd_length; rewrite ?upd_length; rewrite ?upd_length; oside HN). exact Hrb10.
+  - rewrite !mem_upd_other by (rewrite ?upd_length; rewrite ?upd_length; rewrite ?upd_length; oside HN). exact Hre10.
+  - rewrite !mem_upd_other by (rewrite ?upd_length; rewrite ?upd_length; rewrite ?upd_length; oside HN). apply mem_upd_same. lia.
+  - rewrite mem_upd_other by (rewrite ?upd_length; rewrite ?upd_length; rewrite ?upd_length; oside HN). apply mem_upd_same. rewrite upd_length by lia. lia.
+  - rewrite !mem_upd_other by (rewrite ?upd_length; rewrite ?upd_length; rewrite ?upd_length; oside HN).
+    unfold m10, m9. rewrite !mem_upd_other by (rewrite ?upd_length; rewrite ?upd_length; oside HN). exact Hdir8.
+  - apply mem_upd_same. rewrite !upd_length; rewrite ?upd_length; lia.
 Qed.
 
-Definition ptr_val (v : val) : Prop := v = VInt 0 \/ exists b o, v = VPtr b o.
-Definition is_null (v : val) : bool := match v with VInt 0 => true | _ => false end.
-Lemma x_rset_find_none : nth_error cprog X_rset_find = None.
-Proof. vm_compute. reflexivity. Qed.
-Ltac enterx f cf :=
-  rewrite callx_S; cbn [nth_error cprog f cf fn_nparams fn_nlocals fn_body length Nat.eqb Nat.sub repeat app].
-
-(* a load from a global table at a closed offset, a store into a one-cell block *)
-Lemma ld_glob (m : mem) g (blk : block) o v : nth_error m g = Some blk -> (o <? 0) = false -> nth_error blk (Z.to_nat o) = Some v ->
-  load m g o = Ok v.
-Proof. intros H Ho Hv. unfold load. rewrite H, Ho, Hv. reflexivity. Qed.
-Lemma st_cell (m : mem) p x v : nth_error m p = Some [x] -> store m p 0 v = Ok (upd m p [v]).
-Proof. intro H. rewrite (store_ok m p [x]) by (try exact H; cbn; lia). reflexivity. Qed.
-Lemma ld_cell (m : mem) p v : nth_error m p = Some [v] -> load m p 0 = Ok v.
-Proof. intro H. unfold load. rewrite H. reflexivity. Qed.
-
-(* ------------------------------------------------------------------ conf_dirmark, conf_dircontext (conf.c): the table readers.
-   struct dirmark = 4 cells ctx dir grp pat, struct dircontext = 2 cells dir pat; the blocks the translator read from the
-   initializers are the rows of the GENERATED tables GenConf.dirmarks / GenConf.dircontexts (checked by evaluation). *)
-Definition dm_row (i : nat) : Z * Z * Z * bytes := nth i dirmarks (0, 0, 0, []).
-Definition dm_dir (i : nat) : Z := let '(_, d, _, _) := dm_row i in d.
-Definition dm_grp (i : nat) : Z := let '(_, _, g, _) := dm_row i in g.
-Definition dm_ctx (i : nat) : Z := let '(c, _, _, _) := dm_row i in c.
-
-Lemma gb_dirmarks_rows : forall i, (i < length dirmarks)%nat ->
-  nth_error gb_dirmarks (4 * i) = Some (VInt (dm_ctx i)) /\ nth_error gb_dirmarks (4 * i + 1) = Some (VInt (dm_dir i)) /\
-  nth_error gb_dirmarks (4 * i + 2) = Some (VInt (dm_grp i)) /\ int_ok (dm_ctx i) /\ int_ok (dm_dir i) /\ int_ok (dm_grp i) /\
-  0 <= dm_grp i <= 15.
+(* phase 4: sbuf_free(str); return found < 0 *)
+Lemma dm_tail_ok ext fuel d (m mc : mem) outs chg sblk gv cs sz bd args L' rs flg found sv :
+  mstate m mc outs chg sblk gv cs sz bd -> L' = length m -> length args = 10%nat ->
+  exists mc',
+    exec (callx ext cprog fuel (S (S (S d)))) fuel (seq_drop 9 dm_body) (mkst (args ++ dm_locals L' rs flg found sv) mc)
+    = OReturn (VInt (b2z (found <? 0))) (mkst (args ++ dm_locals L' rs flg found sv) mc') /\
+    mem_ext m mc' chg /\ (forall p, In p outs -> nth_error mc' p = nth_error mc p).
 Proof.
-  intros i Hi. change (length dirmarks) with 6%nat in Hi.
-  do 6 (destruct i as [|i]; [vm_compute; repeat split; discriminate|]). lia.
-Qed.
-Lemma gb_dircontexts_rows : forall i, (i < length dircontexts)%nat ->
-  nth_error gb_dircontexts (2 * i) = Some (VInt (fst (nth i dircontexts (0, [])))) /\ int_ok (fst (nth i dircontexts (0, []))).
-Proof.
-  intros i Hi. change (length dircontexts) with 2%nat in Hi.
-  do 2 (destruct i as [|i]; [vm_compute; repeat split; discriminate|]). lia.
+  intros MS -> Ha. pose proof (ms_len _ _ _ _ _ _ _ _ _ MS) as Hlen.
+  destruct args as [|a0 [|a1 [|a2 [|a3 [|a4 [|a5 [|a6 [|a7 [|a8 [|a9 [|]]]]]]]]]]]; try discriminate Ha.
+  destruct (tr_sbuf_free mc (S (length m)) cs sz (S (S d)) fuel (ms_rep _ _ _ _ _ _ _ _ _ MS)) as [mc' [E [_ [_ [Hl F]]]]].
+  unfold dm_locals. cbn [seq_drop dm_body fn_body cf_dir_match app]. xs.
+  rewrite (callx_mono ext _ _ _ _ _ _ _ E). xs.
+  exists mc'. split; [reflexivity|].
+  pose proof (ms_datab _ _ _ _ _ _ _ _ _ MS) as D. pose proof (ms_bd _ _ _ _ _ _ _ _ _ MS) as Hbd.
+  assert (G : forall x, (x < length m)%nat -> nth_error mc' x = nth_error mc x).
+  { intros x Hx. apply F; [lia|]. rewrite D. intro X. injection X as X. lia. }
+  split.
+  - destruct (ms_ext _ _ _ _ _ _ _ _ _ MS) as [Le Fe]. split; [lia|]. intros x Hx Hn. rewrite G by exact Hx. apply Fe; assumption.
+  - intros p Hp. apply G. apply (ms_outs _ _ _ _ _ _ _ _ _ MS p Hp).
 Qed.
 
-(* conf_dirmark(idx, NULL, NULL, &dir, &grp) for a row of the table *)
-Theorem tr_conf_dirmark (m : mem) idx pd pg xd xg d fuel :
-  nth_error m G_dirmarks = Some gb_dirmarks -> nth_error m pd = Some [xd] -> nth_error m pg = Some [xg] -> pd <> pg ->
-  (idx < length dirmarks)%nat ->
-  callf cprog fuel (S d) F_conf_dirmark [VInt (Z.of_nat idx); VInt 0; VInt 0; VPtr pd 0; VPtr pg 0] m
-  = Ok (VInt 0, upd (upd m pd [VInt (dm_dir idx)]) pg [VInt (dm_grp idx)]).
-Proof.
-  intros Hg Hd Hgr Hne Hi. destruct (gb_dirmarks_rows idx Hi) as (_ & R1 & R2 & _ & I1 & I2 & _).
-  change (length dirmarks) with 6%nat in Hi.
-  assert (Hdl : (pd < length m)%nat) by (apply nth_error_Some; congruence).
-  enter F_conf_dirmark cf_conf_dirmark. xs.
-  destruct (Z.ltb_spec (Z.of_nat idx) 0); [lia|]. xs. rewrite wrap_U64_id by lia.
-  destruct (Z.leb_spec 6 (Z.of_nat idx)); [lia|]. xs.
-  rewrite (ld_glob m G_dirmarks gb_dirmarks _ (VInt (dm_dir idx)) Hg)
-    by (try (apply Z.ltb_ge; lia); replace (Z.to_nat (0 + 4 * Z.of_nat idx + 1 * 1)) with (4 * idx + 1)%nat by lia; exact R1).
-  xs. rewrite (wrap_int_ok _ I1). rewrite (wrap_int_ok _ I1). rewrite (st_cell m pd xd _ Hd). xs.
-  set (m1 := upd m pd _).
-  assert (Hg1 : nth_error m1 G_dirmarks = Some gb_dirmarks).
-  { unfold m1. destruct (Nat.eq_dec G_dirmarks pd) as [E|E]; [|rewrite mem_upd_other by auto; exact Hg].
-    exfalso. rewrite E in Hg. rewrite Hd in Hg. discriminate. }
-  rewrite (ld_glob m1 G_dirmarks gb_dirmarks _ (VInt (dm_grp idx)) Hg1)
-    by (try (apply Z.ltb_ge; lia); replace (Z.to_nat (0 + 4 * Z.of_nat idx + 1 * 2)) with (4 * idx + 2)%nat by lia; exact R2).
-  xs. rewrite (wrap_int_ok _ I2). rewrite (wrap_int_ok _ I2).
-  assert (Hgr1 : nth_error m1 pg = Some [xg]) by (unfold m1; rewrite mem_upd_other by auto; exact Hgr).
-  rewrite (st_cell m1 pg xg _ Hgr1). xs. reflexivity.
-Qed.
-
-(* conf_dircontext(idx, NULL, &dir), every int idx: inside the table the row's direction is stored and 0 returned, outside
-   nothing is stored and 1 returned *)
-Definition dctx_row (idx : Z) : option (Z * bytes) := if idx <? 0 then None else nth_error dircontexts (Z.to_nat idx).
-Theorem tr_conf_dircontext (m : mem) idx pc xc d fuel :
-  nth_error m G_dircontexts = Some gb_dircontexts -> nth_error m pc = Some [xc] -> int_ok idx ->
-  callf cprog fuel (S d) F_conf_dircontext [VInt idx; VInt 0; VPtr pc 0] m
-  = match dctx_row idx with
-    | Some (dir, _) => Ok (VInt 0, upd m pc [VInt dir])
-    | None => Ok (VInt 1, m)
+(* dir_match(chrs, beg, end, ctx, &rec, &r_beg, &r_end, &c_beg, &c_end, &dir), for EVERY oracle that answers as `raw` says:
+   the return value is 0 exactly when the model's dir_match finds a mark, the six result cells then hold the model's spans (the
+   byte offsets of rset_find converted to character indices with uc_off on the copied text), direction and nesting flag; when no
+   mark matches no block of the memory at the call is changed.  Every load and store was inside a live block (among them: the 32
+   cells of subs[], subs[grp * 2 + 1] with grp from the table, the copy of chrs[end] - chrs[beg] bytes, the terminator the
+   sbuf writes behind them). *)
+Theorem tr_dir_match ext fuel d (m : mem) sb s cb chrs rslr rsrl raw b e ctx prec prb pre pcb pce pdir :
+  dir_world m sb s cb chrs rslr rsrl -> (b <= e < length chrs)%nat ->
+  outs_ok m sb cb (dm_outs prec prb pre pcb pce pdir) ->
+  oracle_ok ext s chrs rslr rsrl raw -> raw_ok rslr rsrl raw -> (length s < fuel)%nat ->
+  exists m',
+    callx ext cprog fuel (S (S (S (S d)))) F_dir_match (dm_args cb b e ctx prec prb pre pcb pce pdir) m
+    = Ok (VInt (match dir_match s chrs raw b e ctx with Some _ => 0 | None => 1 end), m') /\
+    match dir_match s chrs raw b e ctx with
+    | Some res => mem_ext m m' (dm_outs prec prb pre pcb pce pdir) /\ res_cells m' prec prb pre pcb pce pdir res
+    | None => mem_ext m m' []
     end.
 Proof.
-  intros Hg Hc Hi. unfold dctx_row, int_ok in *.
-  enter F_conf_dircontext cf_conf_dircontext. xs.
-  destruct (Z.ltb_spec idx 0); xs; [reflexivity|]. rewrite wrap_U64_id by lia.
-  destruct (Z.leb_spec 2 idx) as [L|L]; xs.
-  - replace (nth_error dircontexts (Z.to_nat idx)) with (@None (Z * bytes)); [reflexivity|].
-    symmetry. apply nth_error_None. change (length dircontexts) with 2%nat. lia.
-  - assert (Hn : (Z.to_nat idx < length dircontexts)%nat) by (change (length dircontexts) with 2%nat; lia).
-    destruct (gb_dircontexts_rows _ Hn) as [R I].
-    rewrite (nth_error_nth' dircontexts (0, []) Hn). destruct (nth (Z.to_nat idx) dircontexts (0, [])) as [dir pat] eqn:E.
-    cbn [fst] in R, I.
-    rewrite (ld_glob m G_dircontexts gb_dircontexts _ (VInt dir) Hg)
-      by (try (apply Z.ltb_ge; lia); replace (Z.to_nat (0 + 2 * idx)) with (2 * Z.to_nat idx)%nat by lia; exact R).
-    xs. rewrite (wrap_int_ok _ I). rewrite (wrap_int_ok _ I). rewrite (st_cell m pc xc _ Hc). xs. reflexivity.
-Qed.
-
-(* ------------------------------------------------------------------ dir_context *)
-Lemma cc_notbit7 : forall c, (c < 256)%N ->
-  negb (Z.land (Z.lnot (wrap I32 (wrap U8 (wrap I8 (Z.of_N c))))) 128 =? 0) = negb (bit c 128).
-Proof. byte_fact. Qed.
-Lemma hd0_nthb (s : bytes) : hd0 s = nthb s 0.
-Proof. destruct s; reflexivity. Qed.
-
-(* the three fast paths: xtd > 1, xtd < -1, xtd == 0 and an ASCII first byte *)
-Definition ctx_fast (s : bytes) (xtd : Z) : bool := (1 <? xtd) || (xtd <? -1) || ((xtd =? 0) && negb (bit (hd0 s) 128)).
-Lemma dir_context_fast s xtd cf1 cf2 : ctx_fast s xtd = true -> dir_context s xtd cf1 = dir_context s xtd cf2.
-Proof.
-  unfold ctx_fast, dir_context. destruct (1 <? xtd); [reflexivity|]. destruct (xtd <? -1); [reflexivity|].
-  cbn [orb]. intros ->. reflexivity.
-Qed.
-
-(* the memory dir_context needs: the line, the option xtd, the context rset pointer, the context table *)
-Record ctx_world (m : mem) (sb : nat) (s : bytes) (xtd : Z) (rsctx : val) : Prop := {
-  cw_s : str_at m sb s;  cw_256 : bytes_lt256 s;
-  cw_xtd : nth_error m G_xtd = Some [VInt xtd];  cw_xtd_ok : int_ok xtd;
-  cw_rs : nth_error m G_dir_rsctx = Some [rsctx];  cw_rs_ok : ptr_val rsctx;
-  cw_tab : nth_error m G_dircontexts = Some gb_dircontexts }.
-
-(* dir_context(s) when a fast path applies: for EVERY oracle (rset_find is not reached), the model's answer (which then does
-   not depend on the matcher); the memory is the old one plus the block of the local `dir` *)
-Theorem tr_dir_context_fast ext m sb s xtd rsctx cf d fuel : ctx_world m sb s xtd rsctx -> ctx_fast s xtd = true ->
-  callx ext cprog fuel (S d) F_dir_context [VPtr sb 0] m = Ok (VInt (dir_context s xtd cf), m ++ [[VUndef]]).
-Proof.
-  intros [Hs H256 Hx Ix Hr Pr Ht] Hf. unfold int_ok in Ix.
-  assert (Hxl : (G_xtd < length m)%nat) by (apply nth_error_Some; congruence).
-  assert (Hx1 : nth_error (m ++ [[VUndef]]) G_xtd = Some [VInt xtd]) by (rewrite nth_error_app_old by exact Hxl; exact Hx).
-  assert (Hs1 : str_at (m ++ [[VUndef]]) sb s).
-  { unfold str_at in *. rewrite nth_error_app_old; [exact Hs|]. apply nth_error_Some. congruence. }
-  enterx F_dir_context cf_dir_context. xs. rewrite malloc_ok by lia. xs. change (Z.to_nat 1) with 1%nat. cbn [repeat].
-  rewrite (ld_cell _ _ _ Hx1). xs. rewrite wrap_I32_id by lia.
-  unfold ctx_fast in Hf. unfold dir_context.
-  destruct (Z.ltb_spec 1 xtd); xs; [reflexivity|].
-  rewrite (ld_cell _ _ _ Hx1). xs. rewrite wrap_I32_id by lia.
-  destruct (Z.ltb_spec xtd (-1)); xs; [reflexivity|]. cbn [orb] in Hf.
-  rewrite (ld_cell _ _ _ Hx1). xs. rewrite wrap_I32_id by lia.
-  destruct (Z.eqb_spec xtd 0) as [E0|E0]; [|discriminate Hf]. cbn [andb] in Hf. xs.
-  rewrite (load_str _ sb s 0 0%nat Hs1) by lia. xs.
-  rewrite (cc_notbit7 _ (nthb_lt256 s 0 H256)), <- hd0_nthb, Hf. xs. reflexivity.
-Qed.
-
-(* the tail of dir_context behind the rset_find step, from any memory that extends the one at that point *)
-Definition ctx_tail : stmt :=
-  match fn_body cf_dir_context with SSeq _ (SSeq _ (SSeq _ (SSeq _ (SSeq _ (SSeq _ t))))) => t | _ => SSkip end.
-Lemma ctx_tail_ok ext fuel d (m m3 : mem) xtd cf loc0 :
-  nth_error m G_xtd = Some [VInt xtd] -> int_ok xtd -> nth_error m G_dircontexts = Some gb_dircontexts ->
-  mem_ext (m ++ [[VUndef]]) m3 [] -> int_ok cf ->
-  exists m', exec (callx ext cprog fuel (S d)) fuel ctx_tail (mkst [loc0; VInt cf; VPtr (length m) 0] m3)
-    = OReturn (VInt (match dctx_row cf with Some (dir, _) => dir | None => if xtd <? 0 then -1 else 1 end))
-              (mkst [loc0; VInt cf; VPtr (length m) 0] m') /\ mem_ext m m' [].
-Proof.
-  intros Hx Ix Ht E13 Icf. unfold int_ok in Ix.
-  assert (Hxl : (G_xtd < length m)%nat) by (apply nth_error_Some; congruence).
-  assert (Htl : (G_dircontexts < length m)%nat) by (apply nth_error_Some; congruence).
-  assert (Ht3 : nth_error m3 G_dircontexts = Some gb_dircontexts).
-  { apply (mem_ext_get _ _ _ _ _ E13); [rewrite nth_error_app_old by exact Htl; exact Ht|intros []]. }
-  assert (Hd3 : nth_error m3 (length m) = Some [VUndef]) by (apply (mem_ext_get _ _ _ _ _ E13); [apply nth_error_app_new|intros []]).
-  assert (Hx3 : nth_error m3 G_xtd = Some [VInt xtd]).
-  { apply (mem_ext_get _ _ _ _ _ E13); [rewrite nth_error_app_old by exact Hxl; exact Hx|intros []]. }
-  assert (E03 : mem_ext m m3 []).
-  { apply (mem_ext_trans m (m ++ [[VUndef]]) m3 [] [] []); [apply mem_ext_app|exact E13|apply incl_refl|intros b []]. }
-  pose proof (tr_conf_dircontext m3 cf (length m) VUndef d fuel Ht3 Hd3 Icf) as Ec.
-  unfold ctx_tail. cbn [fn_body cf_dir_context]. xs.
-  destruct (dctx_row cf) as [[dir pat]|] eqn:Er.
-  - rewrite (callx_mono ext _ _ _ _ _ _ _ Ec). xs.
-    assert (Hdl : (length m < length m3)%nat) by (apply nth_error_Some; congruence).
-    rewrite (ld_cell (upd m3 (length m) [VInt dir]) (length m) (VInt dir)) by (apply mem_upd_same; exact Hdl). xs.
-    assert (Idir : int_ok dir).
-    { unfold dctx_row in Er. destruct (cf <? 0); [discriminate|].
-      assert (Hn : (Z.to_nat cf < length dircontexts)%nat) by (apply nth_error_Some; congruence).
-      destruct (gb_dircontexts_rows _ Hn) as [_ I]. rewrite (nth_error_nth _ _ (0, []) Er) in I. exact I. }
-    rewrite (wrap_int_ok _ Idir). eexists. split; [reflexivity|].
-    apply (mem_ext_trans m m3 _ [] [length m] []); [exact E03|apply mem_ext_upd; left; reflexivity|apply incl_refl|].
-    intros b [<-|[]] Hb. exfalso; lia.
-  - rewrite (callx_mono ext _ _ _ _ _ _ _ Ec). xs. rewrite (ld_cell _ _ _ Hx3). xs. rewrite wrap_I32_id by lia.
-    exists m3. split; [|exact E03]. destruct (xtd <? 0); xs; reflexivity.
-Qed.
-
-(* dir_context(s) on the slow path: rset_find(dir_rsctx, s, 0, NULL, 0) is the oracle's (when dir_rsctx is not NULL); whatever
-   index it answers, the result is the model's dir_context for that answer (cf = -1: no pattern matched, or there is no rset) *)
-Theorem tr_dir_context_slow ext m sb s xtd rsctx cf m2 d fuel : ctx_world m sb s xtd rsctx -> ctx_fast s xtd = false ->
-  (is_null rsctx = true -> cf = -1) ->
-  (is_null rsctx = false ->
-     ext X_rset_find [rsctx; VPtr sb 0; VInt 0; VInt 0; VInt 0] (m ++ [[VUndef]]) = Ok (VInt cf, m2) /\ int_ok cf /\
-     mem_ext (m ++ [[VUndef]]) m2 []) ->
-  exists m', callx ext cprog fuel (S (S d)) F_dir_context [VPtr sb 0] m = Ok (VInt (dir_context s xtd cf), m') /\ mem_ext m m' [].
-Proof.
-  intros [Hs H256 Hx Ix Hr Pr Ht] Hf Hnull Hext. pose proof Ix as Ix'. unfold int_ok in Ix.
-  assert (Hxl : (G_xtd < length m)%nat) by (apply nth_error_Some; congruence).
-  assert (Hrl : (G_dir_rsctx < length m)%nat) by (apply nth_error_Some; congruence).
-  set (m1 := m ++ [[VUndef]]) in *.
-  assert (Hx1 : nth_error m1 G_xtd = Some [VInt xtd]) by (unfold m1; rewrite nth_error_app_old by exact Hxl; exact Hx).
-  assert (Hr1 : nth_error m1 G_dir_rsctx = Some [rsctx]) by (unfold m1; rewrite nth_error_app_old by exact Hrl; exact Hr).
-  assert (Hs1 : str_at m1 sb s).
-  { unfold str_at, m1 in *. rewrite nth_error_app_old; [exact Hs|]. apply nth_error_Some. congruence. }
-  enterx F_dir_context cf_dir_context. xs. rewrite malloc_ok by lia. xs. change (Z.to_nat 1) with 1%nat. cbn [repeat]. fold m1.
-  rewrite (ld_cell _ _ _ Hx1). xs. rewrite wrap_I32_id by lia.
-  unfold ctx_fast in Hf. unfold dir_context.
-  destruct (Z.ltb_spec 1 xtd); [discriminate Hf|]. xs.
-  rewrite (ld_cell _ _ _ Hx1). xs. rewrite wrap_I32_id by lia.
-  destruct (Z.ltb_spec xtd (-1)); [discriminate Hf|]. xs. cbn [orb] in Hf.
-  rewrite (ld_cell _ _ _ Hx1). xs. rewrite wrap_I32_id by lia.
-  assert (Hfast3 : (if xtd =? 0 then negb (bit (hd0 s) 128) else false) = false) by (destruct (xtd =? 0); exact Hf).
-  assert (Fin : forall m3, mem_ext m1 m3 [] -> int_ok cf ->
-            exists m', match exec (callx ext cprog fuel (S d)) fuel ctx_tail (mkst [VPtr sb 0; VInt cf; VPtr (length m) 0] m3) with
-                       | OReturn v st => Ok (v, memm st) | ONormal st => Ok (VUndef, memm st) | OErr x => Err x | _ => Err EShape end
-                       = Ok (VInt (match (if cf <? 0 then None else nth_error dircontexts (Z.to_nat cf)) with
-                                   | Some (dir, _) => dir | None => if xtd <? 0 then -1 else 1 end), m') /\ mem_ext m m' []).
-  { intros m3 E13 Icf. destruct (ctx_tail_ok ext fuel d m m3 xtd cf (VPtr sb 0) Hx Ix' Ht E13 Icf) as [m' [E M]].
-    rewrite E. exists m'. split; [reflexivity|exact M]. }
-  change (SSeq (SIf (ELNot (ECall F_conf_dircontext _)) _ _) _) with ctx_tail.
-  destruct (Z.eqb_spec xtd 0) as [E0|E0]; xs.
-  - rewrite (load_str _ sb s 0 0%nat Hs1) by lia. xs.
-    rewrite (cc_notbit7 _ (nthb_lt256 s 0 H256)), <- hd0_nthb, Hfast3. xs.
-    rewrite (ld_cell _ _ _ Hr1).
-    destruct Pr as [->|[rb [ro ->]]]; xs.
-    + specialize (Hnull eq_refl). subst cf. apply (Fin m1); [apply mem_ext_refl|unfold int_ok; lia].
-    + rewrite (ld_cell _ _ _ Hr1). xs. rewrite callx_S, x_rset_find_none.
-      destruct (Hext eq_refl) as [Ex [Icf E12]]. rewrite Ex. xs. apply (Fin m2); assumption.
-  - rewrite (ld_cell _ _ _ Hr1).
-    destruct Pr as [->|[rb [ro ->]]]; xs.
-    + specialize (Hnull eq_refl). subst cf. apply (Fin m1); [apply mem_ext_refl|unfold int_ok; lia].
-    + rewrite (ld_cell _ _ _ Hr1). xs. rewrite callx_S, x_rset_find_none.
-      destruct (Hext eq_refl) as [Ex [Icf E12]]. rewrite Ex. xs. apply (Fin m2); assumption.
+  intros W Hbe Hout Hor Hraw Hf.
+  rewrite callx_S. change (nth_error cprog F_dir_match) with (Some cf_dir_match). cbv iota beta.
+  change (fn_nparams cf_dir_match) with 10%nat. change (fn_nlocals cf_dir_match) with 17%nat.
+  change (fn_body cf_dir_match) with dm_body. unfold dm_args. cbn [length Nat.eqb Nat.sub].
+  destruct (dm_setup_ok ext fuel d m sb s cb chrs rslr rsrl b e ctx prec prb pre pcb pce pdir W Hbe Hout) as [m1 [sz1 [bd1 [E1 MS1]]]].
+  unfold dm_args in E1. rewrite E1. clear E1.
+  destruct (dm_find_ok ext fuel d m m1 sb s cb chrs rslr rsrl raw b e ctx prec prb pre pcb pce pdir sz1 bd1 W Hbe Hor Hraw MS1)
+    as [m2 [sz2 [bd2 [E2 MS2]]]].
+  unfold dm_args, dm_locals in E2. unfold dm_locals. rewrite E2. clear E2.
+  destruct (Hraw b e ctx (dm_flags s chrs b e)) as [_ Hsome].
+  destruct (raw b e ctx (dm_flags s chrs b e)) as [[found subs]|] eqn:Hr.
+  - destruct (Hsome found subs eq_refl) as (Hfound & Hint & H0 & H1).
+    destruct (dm_conv_ok ext fuel d m m2 sb s cb chrs rslr rsrl raw b e ctx prec prb pre pcb pce pdir sz2 bd2 found subs
+                W Hbe Hout Hr Hfound Hint H0 H1 Hf MS2) as (m3 & sz3 & bd3 & sv & gv & chg & res & E3 & MS3 & Hchg & DM & RC).
+    unfold dm_args, dm_locals in E3. cbn [raw_found]. rewrite E3. clear E3.
+    destruct (dm_tail_ok ext fuel d m m3 _ _ _ _ _ _ _ (dm_args cb b e ctx prec prb pre pcb pce pdir) (length m)
+                (rs_of rslr rsrl ctx) (dm_flags s chrs b e) (Z.of_nat found) sv MS3 eq_refl eq_refl) as (m4 & E4 & X4 & O4).
+    unfold dm_args, dm_locals in E4. rewrite E4. clear E4. cbn [memm].
+    exists m4. rewrite DM. split; [destruct (Z.ltb_spec (Z.of_nat found) 0); [lia|reflexivity]|]. split.
+    + apply (mem_ext_weaken' _ _ _ _ X4). intros q Hq Hl. destruct (Hchg q Hq) as [X| ->]; [exact X|exfalso; lia].
+    + destruct RC as (R1 & R2 & R3 & R4 & R5 & R6). unfold res_cells.
+      rewrite !O4 by (unfold dm_outs; cbn [In]; auto 10). auto 10.
+  - assert (DM : dir_match s chrs raw b e ctx = None) by (unfold dir_match; rewrite Hr; reflexivity).
+    (* found = -1: the conversion is skipped *)
+    assert (E3 : forall st, exec (callx ext cprog fuel (S (S (S d)))) fuel (seq_drop 8 dm_body)
+                   (mkst (dm_args cb b e ctx prec prb pre pcb pce pdir ++ dm_locals (length m) (rs_of rslr rsrl ctx) (dm_flags s chrs b e) (-1) VUndef) st)
+                 = exec (callx ext cprog fuel (S (S (S d)))) fuel (seq_drop 9 dm_body)
+                   (mkst (dm_args cb b e ctx prec prb pre pcb pce pdir ++ dm_locals (length m) (rs_of rslr rsrl ctx) (dm_flags s chrs b e) (-1) VUndef) st)).
+    { intros st. unfold dm_args, dm_locals. cbn [seq_drop dm_body fn_body cf_dir_match app].
+      change (SSeq (SExpr (ECall F_sbuf_free _)) _) with (seq_drop 9 dm_body). xs. reflexivity. }
+    cbn [raw_found]. unfold dm_args, dm_locals in E3. rewrite (E3 m2). clear E3.
+    destruct (dm_tail_ok ext fuel d m m2 _ _ _ _ _ _ _ (dm_args cb b e ctx prec prb pre pcb pce pdir) (length m)
+                (rs_of rslr rsrl ctx) (dm_flags s chrs b e) (-1) VUndef MS2 eq_refl eq_refl) as (m4 & E4 & X4 & O4).
+    unfold dm_args, dm_locals in E4. rewrite E4. clear E4. cbn [memm].
+    exists m4. rewrite DM. split; [reflexivity|exact X4].
 Qed.
